@@ -15,4 +15,5 @@ CONSTANTS
   DEV_WalkRawName = FALSE
   DEV_LinkRawName = FALSE
   DEV_LinkOneSlash = FALSE
+  Unpriv <- MCFalse
 CHECK_DEADLOCK FALSE
